@@ -271,11 +271,11 @@ func main() {
 	// ---- confirmation of suspected violations -------------------------------------
 	confirm(r, suspects, infos)
 
-	rule := fmt.Sprintf("programs ordered by size of their failure-free RPC alphabet (union over %d failure-free runs); "+
-		"single faults = every labelled Worker.* RPC x {before, after, afterreply} (+ Worker.Read: mid:0, mid:len/2, mid:len-1) x victim {callee; for Worker.Run every other machine} x {M1, M2}, "+
-		"final-scan reads included; thorough adds every pair (first fault, point of the history observed after it fired) for the two smallest programs. "+
-		"A case is non-trivial iff sys.Fired() reports that every configured fault fired (and, for a foreign victim, that the victim was a live machine other than the callee); "+
-		"distinct_nontrivial counts distinct (program, label, variant) over fired single faults plus distinct fired pairs", nFreeRuns)
+	rule := fmt.Sprintf("programs ordered by size of their RPC alphabet = union of the labelled Worker.* RPC histories (method:task/partition#occurrence) of %d runs without injected faults and without spurious machine loss; "+
+		"single faults = every label x {before, after, afterreply} (+ Worker.Read: cut of the reply at byte 0, len/2, len-1 and at the ends of encoded batches: all of them for final-scan reads, first/median/last otherwise) x victim {callee; for Worker.Run and for final-scan reads also every other machine that is up} x {M1, M2}; "+
+		"quick: 3 smallest programs, thorough: all 6 plus, for the two smallest, every pair (fired single fault, fault at the first call to a live machine of every method:task/partition in the history observed after it fired); each case = Run + complete scan in a child process. "+
+		"A case is non-trivial iff every configured fault fired (its label occurred in that run and the victim existed); cases that do not fire are retried up to %d times and are not evidence. "+
+		"distinct_nontrivial = distinct (program, label, variant[, other-victim]) over fired single faults + distinct fired pairs", nFreeRuns, maxAttempts)
 	sizes := map[string]interface{}{}
 	for _, p := range progs {
 		inf := infos[p.name]
@@ -370,7 +370,9 @@ func singlePoints(inf *progInfo) []vsys.Fault {
 		for _, v := range vars {
 			out = append(out, vsys.Fault{Label: l, Variant: v})
 		}
-		if methodOf(l) == "Worker.Run" {
+		// Worker.Run, and the reads of the final scan (a machine holding another
+		// shard of the result is lost while this shard is being read):
+		if methodOf(l) == "Worker.Run" || (methodOf(l) == "Worker.Read" && inf.scanOnly[l]) {
 			// every other machine: "other:<k>" = the k-th machine (by name) other
 			// than the callee that is up when the call is made
 			for k := 0; k+1 < len(inf.hosts); k++ {
